@@ -270,11 +270,11 @@ func (fv *FuncVerifier) eqTerm(a, b string, t types.Type) string {
 		return "(and " + strings.Join(parts, " ") + ")"
 	case *types.Slice:
 		// only comparison with nil is legal
-		if b == "(mkSlice 0 0 0 0)" {
-			return "(= (s.ref " + a + ") 0)"
+		if b == "(mkSlice 0 0 0 0)" || b == "0" {
+			return "(= " + sRef(a) + " 0)"
 		}
-		if a == "(mkSlice 0 0 0 0)" {
-			return "(= (s.ref " + b + ") 0)"
+		if a == "(mkSlice 0 0 0 0)" || a == "0" {
+			return "(= " + sRef(b) + " 0)"
 		}
 	}
 	return "(= " + a + " " + b + ")"
